@@ -35,7 +35,24 @@ import (
 
 const (
 	debug = false
+
+	// maxTreeDepth bounds the depth of the installation tree. Real trees
+	// nest a few levels; aliases or bundles that refer back to a package
+	// that (transitively) installs them would otherwise nest forever.
+	maxTreeDepth = 100
 )
+
+var errTreeTooDeep = fmt.Errorf("installation tree deeper than %d levels", maxTreeDepth)
+
+// tooDeep reports whether a node attached under parent would exceed
+// maxTreeDepth.
+func tooDeep(parent *treeNode) bool {
+	depth := 1
+	for n := parent; n != nil; n = n.parent {
+		depth++
+	}
+	return depth > maxTreeDepth
+}
 
 // resolver implements resolve.Resolver for NPM.
 // Dependencies are resolved using the algorithm employed by "npm install",
@@ -383,6 +400,9 @@ func (r *resolver) Resolve(ctx context.Context, vk resolve.VersionKey) (*resolve
 				}
 				continue
 			}
+			if tooDeep(parent) {
+				return nil, fmt.Errorf("cannot install %s: %w", wouldPick, errTreeTooDeep)
+			}
 			if alias == "" {
 				parent.children[node.pkg] = node
 			} else {
@@ -582,6 +602,10 @@ func (r *resolver) injectDerivedFrom(ctx context.Context, node *treeNode, v reso
 	bvs, err := r.directBundleContent(ctx, v)
 	if err != nil {
 		return fmt.Errorf("cannot get bundled content: %w", err)
+	}
+	if len(bvs) > 0 && tooDeep(node) {
+		// Only a bundle that contains itself nests this deep.
+		return fmt.Errorf("bundle content of %s: %w", v, errTreeTooDeep)
 	}
 	for _, bv := range bvs {
 		cn, err := r.newTreeNode(ctx, bv.Version)
